@@ -36,6 +36,8 @@ type fragCase struct {
 	GapKind string `json:"gap_kind"` // timeout | empty | eof0 (serial only)
 	// EOF: 0 none, 1 io.EOF together with the last chunk, 2 io.EOF in a separate empty read after the last chunk (network clients)
 	EOF int `json:"eof"`
+	// Follow: a later call on the same client must not change the reply already returned
+	Follow bool `json:"follow,omitempty"`
 }
 
 // Replies computes the reply (and the normal reply length) from the device model.
@@ -82,12 +84,12 @@ func events(c fragCase) []xport.Event {
 }
 
 type prepared struct {
-	sc       cli.Scenario
-	reply    []byte
-	affected bool
-	tolerate bool // open finding lists "truncated-success"
+	sc        cli.Scenario
+	reply     []byte
+	affected  bool
+	tolerate  bool // open finding lists "truncated-success"
 	predicted cli.Stop
-	known    bool
+	known     bool
 }
 
 func prepare(c fragCase) (prepared, error) {
@@ -110,7 +112,8 @@ func prepare(c fragCase) (prepared, error) {
 	p.known = known
 	p.predicted = cli.Model(c.Kind, reply, ev, E)
 	p.affected = known && (p.predicted.Timeout || p.predicted.Total != len(reply))
-	p.sc = cli.Scenario{Kind: c.Kind, Req: c.Req, Stream: reply, Events: ev}
+	// (no later call where an open finding makes the client wait for more bytes than the reply has: it would only end by the read timeout)
+	p.sc = cli.Scenario{Kind: c.Kind, Req: c.Req, Stream: reply, Events: ev, Follow: c.Follow && E <= normalLen}
 	if p.affected && p.predicted.Timeout {
 		p.sc.ReadTimeoutMs = 25
 	}
@@ -192,6 +195,16 @@ func judge(c fragCase, p prepared, o cli.Outcome) harness.Result {
 	if got, want := cat.GoType(o.Resp), cat.TypeName(f, c.Req.FC, false); got != want {
 		return harness.Fail("response type %s, want %s", got, want)
 	}
+	if o.RespAtReturn != nil {
+		labels = append(labels, "followed-by-later-call")
+		if !bytes.Equal(o.RespAtReturn, reply) {
+			return harness.Fail("response re-encodes to %x, the reply was %x (chunks %v)", o.RespAtReturn, reply, c.Chunks)
+		}
+		if !bytes.Equal(o.RespAfterFollow, reply) {
+			return harness.Fail("the returned reply %x reads %x after a later call on the same client received another reply (later call: %v)", reply, o.RespAfterFollow, o.FollowErr)
+		}
+		return harness.Result{NonTrivial: len(c.Chunks) >= 2, Labels: labels}
+	}
 	if !bytes.Equal(o.Resp.Bytes(), reply) {
 		return harness.Fail("response re-encodes to %x, the reply was %x (chunks %v)", o.Resp.Bytes(), reply, c.Chunks)
 	}
@@ -249,6 +262,7 @@ func genFrag(t *rapid.T, kinds []string) fragCase {
 		c.GapKind = "timeout"
 		c.EOF = rapid.SampledFrom([]int{0, 0, 0, 1, 2}).Draw(t, "eof")
 	}
+	c.Follow = c.ExcCode == 0 && rapid.IntRange(0, 3).Draw(t, "follow") == 0
 	return c
 }
 
